@@ -48,10 +48,18 @@ CLAIMED = {
              technique="Coq proof (lexer/parser invariants) + differential correspondence"),
  "C09": dict(text="Locations: Coq theorems prove for every newline-terminated text, both profiles, that lexing succeeds and every token's line/column "
                   "are those of its raw offset, the range lies inside the text on one line and covers exactly the token's spelling, and that tokens "
-                  "are ordered and disjoint. Tied to lexer.rs item by item; the checker additionally checks every range printed by the parser and by "
-                  "the whole pipeline (nodes, operands, parse errors, diagnostics; LF, CRLF, leading blank lines, includes) against the file text.",
-             design="8/C09", note=NOTE + "Node/diagnostic ranges are tied by correspondence and checked by the oracle, proved only at token level.",
-             technique="Coq proof (lexer state invariant) + differential correspondence"),
+                  "are ordered and disjoint (Props/C09.v). Props/C09loc.v lifts this to everything the analyzer reports, for single files AND include "
+                  "trees with any faults: every operand token of every node is a lexer token of its file inside that node's range (C09loc_operands); a "
+                  "node's range is the hull from its statement's first to its last consumed token, nodes of different statements are disjoint and in "
+                  "source order - except the two nodes of an expanded `lw rd, label`/`sw rs, label, rt`, which share one range (C09loc_node_range); every "
+                  "parse error is located on a lexer item (C09loc_parse_error); and every location of every diagnostic (through the whole pipeline, by "
+                  "the position-parametricity theorem) is in a file that was read, inside its text, with consistent line/column/offset, and is either "
+                  "one token or the hull of one statement (C09loc_diagnostics, C09loc_tree_diagnostics). Two non-text locations are explicit "
+                  "exceptions: the program-entry node and the error for an unreadable base file. Tied to lexer.rs item by item and to the parser and "
+                  "pipeline by the node/diagnostic correspondence; the checker also verifies every printed range against the file text (LF, CRLF, "
+                  "leading blank lines, includes).",
+             design="8/C09", note=NOTE + "Multi-line statements (a data directive continued on the next line) have a hull spanning lines: `span_ok` instead of `range_ok`.",
+             technique="Coq proof (lexer state invariant; partial-correctness logic of the statement parser; pipeline provenance) + differential correspondence"),
  "C12": dict(text="Fixed point: Coq theorems prove that the value analysis result satisfies its equations over all predecessors (or was a no-op), that "
                   "value analysis and liveness never touch edges, nodes or functions, that ecall termination is idempotent, that the live sets satisfy "
                   "the exact equations and are reproduced by a re-run, and that the lints ignore u_def. Tied to available.rs/liveness.rs/"
